@@ -19,8 +19,7 @@ LEVEL_TEXT = ("Theorems (Coq, no axioms): chunk_independent — for ALL byte str
               "direct oracle replays split-vs-whole (and chunked streams of several documents) on the real library for every generated partition.")
 LEVEL_NOTE = ("With VALIDATE_UTF8 a call that ends inside a multi-byte character reports a UTF-8 error, not 'continue' (the continuation counter is a "
               "call-local), so the property's premise fails there (C03_utf8_split_first_call_errors); whenever the first call does ask for more input the "
-              "theorem applies.  Streams of several documents: after_success_as_new / stream_resume_is_fresh prove that a parser that has returned a value is as new (one fresh level, no pending high surrogate), so a stream resumed at the reported end positions yields the values and final status that a new parser per document would; "
-              "the chunked-stream comparison itself (where a cut between a document and its trailing blanks/comment hands the value over one call earlier) is checked by the oracle.  Model tied to the C code by sampled differential execution.")
+              "theorem applies.  Streams of several documents: stream_chunks proves, for every list of chunks, that the caller's loop over the chunks yields the documents and the final error of the whole buffer, being at most one document ahead when a cut fell between a document and the blanks/comment behind it (exactly what the stream oracle accepts); after_success_as_new / stream_resume_is_fresh: a parser that has returned a value is as new.  Model tied to the C code by sampled differential execution.")
 
 
 def chunk_ops(t, cuts):
